@@ -260,10 +260,18 @@ func reqID(r *http.Request) string { return r.Header.Get("X-Req") }
 // cancels holds the cancel function of each request's context ("client went away").
 var cancels sync.Map
 
+// appScopeCtx, when set, is the context of a long-lived application scope that every
+// incoming request context derives from (http.Server.BaseContext in a real server).
+var appScopeCtx atomic.Pointer[context.Context]
+
 func newReq(id string) *http.Request {
 	r := httptest.NewRequest("GET", "/x", nil)
 	r.Header.Set("X-Req", id)
-	ctx, cancel := context.WithCancel(context.WithValue(r.Context(), reqKey{}, id))
+	base := r.Context()
+	if p := appScopeCtx.Load(); p != nil {
+		base = *p
+	}
+	ctx, cancel := context.WithCancel(context.WithValue(base, reqKey{}, id))
 	cancels.Store(id, cancel)
 	return r.WithContext(ctx)
 }
@@ -793,6 +801,16 @@ func TestC16Web(t *testing.T) {
 		p, err := buildProvider(w, cfg)
 		if err != nil {
 			rt.Fatalf("build failed: %v", err)
+		}
+		// the incoming request contexts may already carry a scope (an application-wide one):
+		// the request still gets a fresh scope of its own
+		appScopeCtx.Store(nil)
+		if !cfg.NoScopeMW && rapid.IntRange(0, 3).Draw(rt, "appScope") == 0 { // (without the scope middleware the application scope IS the request's scope)
+			if as, err := p.CreateScope(context.Background()); err == nil {
+				actx := as.Context()
+				appScopeCtx.Store(&actx)
+				defer func() { appScopeCtx.Store(nil); _ = as.Close() }()
+			}
 		}
 		serve := adapters[cfg.Framework](w, p, cfg)
 		exits := []string{"ok", "ok", "mw-err", "handler-err", "handler-panic", "scope-fail", "client-gone"}
